@@ -10,7 +10,7 @@
    tracker the step returns.  Nothing here is proved; see Algo/ModifyProofs.v.
 
    Outside the model (Unmodelled, F_SKIP in the correspondence):
-   (U1) an empty `sep` or an empty tree separator;
+   (U1) -- lifted: empty separators are modelled (see py_replace and empty_sep_refusal below);
    (U2) merge_leaves without copy whose destination node lies inside (or is) the source subtree:
         modify.py:1217 mutates the tree while the lazy generator `from_node.leaves` is running;
    (U3) an assignment that would give the tree object handed to the call a parent (only reachable by
@@ -536,11 +536,19 @@ Fixpoint run_pairs (step : forest -> str -> option str -> outc) (f : forest)
   | _, _ => (f, None)
   end.
 
-Definition norm_from (c : cfg) (p : str) : str := replace (rstrip p (c_sep c)) (c_sep c) (c_ssep c).
+(* str.replace, including Python's reading of an empty `old`: `new` is inserted in front of every character
+   and at the end ("ab".replace("", "/") = "/a/b/").  Base/Str.replace returns s for an empty `old`. *)
+Definition py_replace (s old new : str) : str :=
+  match old with
+  | [] => new ++ flat_map (fun ch => ch :: new) s
+  | _ => replace s old new
+  end.
+
+Definition norm_from (c : cfg) (p : str) : str := py_replace (rstrip p (c_sep c)) (c_sep c) (c_ssep c).
 Definition norm_to (c : cfg) (o : option str) : option str :=
   match truthy o with
   | None => None
-  | Some p => Some (replace (rstrip p (c_sep c)) (c_sep c) (c_dsep c))
+  | Some p => Some (py_replace (rstrip p (c_sep c)) (c_sep c) (c_dsep c))
   end.
 
 Definition root_name (f : forest) (k : nat) : str :=
@@ -588,15 +596,27 @@ Definition rp_validate (c : cfg) (f : forest) (fps : list str) (tps0 : list (opt
 Definition seps_ok (c : cfg) : bool :=
   negb (is_empty (c_sep c)) && negb (is_empty (c_ssep c)) && negb (is_empty (c_dsep c)).
 
+(* An empty *tree* separator makes `x.split(tree.sep)` raise ValueError("empty separator").  In both functions
+   that expression is evaluated, before any pair is processed, for every pair with a non-empty normalised
+   to-path (1080, 1101 / 1304) and, with with_full_path, for every from-path (1090 / 1293).  An empty `sep`
+   argument is no error (rstrip("") does nothing, replace("", x) see py_replace).  When this refusal does not
+   fire and a tree separator is empty, no later step evaluates a split with it except find_full_path on a
+   to-path that normalised to "", whose [""] <> root name is a ValueError in the model as in the code. *)
+Definition empty_sep_refusal (rp : bool) (c : cfg) (fps : list str) (tps : list (option str)) : bool :=
+  (* replace_logic has no "same last name" check, so it splits a from-path only with with_full_path *)
+  (((negb rp && is_empty (c_ssep c)) || is_empty (c_dsep c))
+   && existsb (fun o => match truthy (norm_to c o) with Some _ => true | None => false end) tps)
+  || (f_full (c_fl c) && is_empty (c_ssep c) && match fps with [] => false | _ => true end).
+
 Definition copy_or_shift_logic (c : cfg) (f : forest) (fps : list str) (tps : list (option str)) : outc :=
-  if negb (seps_ok c) then (f, Some Unmodelled) else                                (* U1 *)
+  if empty_sep_refusal false c fps tps then (f, Some ValueError) else
   match cs_validate c f fps tps with
   | Some e => (f, Some e)
   | None => run_pairs (cs_pair c) f (map (norm_from c) fps) (map (norm_to c) tps)
   end.
 
 Definition replace_logic (c : cfg) (f : forest) (fps : list str) (tps : list (option str)) : outc :=
-  if negb (seps_ok c) then (f, Some Unmodelled) else
+  if empty_sep_refusal true c fps tps then (f, Some ValueError) else
   match rp_validate c f fps tps with
   | Some e => (f, Some e)
   | None => run_pairs (rp_pair c) f (map (norm_from c) fps) (map (norm_to c) tps)
